@@ -10,6 +10,7 @@ import (
 	"encoding/json"
 	"fmt"
 	"io"
+	"strconv"
 	"strings"
 
 	"pault.ag/go/debian/control"
@@ -36,6 +37,9 @@ func (c12) Batches(tier string, seed uint64) []core.Batch {
 	var b []core.Batch
 	b = append(b, spread("stream", 8, tierN(tier, 60, 600))...)
 	b = append(b, spread("verify", 8, tierN(tier, 1200, 6000))...)
+	if tier == "thorough" {
+		b = append(b, core.Batch{Name: "huge", Arg: 0}, core.Batch{Name: "huge", Arg: 1}) // streams beyond 2^31 and 2^32 bytes
+	}
 	return append(b, conc(tierN(tier, 6, 40), "stream")...)
 }
 
@@ -43,6 +47,9 @@ func (c12) Mandatory(tier string) []string {
 	m := []string{"stream:writer", "stream:reader", "stream:single-writer", "stream:single-reader", "stream:entry-sum-entry-sum", "stream:source-data+EOF", "stream:source-onebyte", "stream:source-chunks", "stream:zero-length-chunk", "stream:other-algorithm-name-rejected", "stream:subset-size-0",
 		"stream:subset-size-4", "stream:repeated-algorithm", "stream:len-0", "stream:len>=4096", "stream:single-write>=256KiB-to-2+-hashers", "stream:entries-stable-after-later-entries",
 		"prov:best-sha256", "prov:best-sha512", "prov:best-both", "prov:dsc-sha256", "prov:sources-sha256", "prov:dsc-md5", "prov:dsc-sha1"}
+	if tier == "thorough" {
+		m = append(m, "stream:len>=2^31", "stream:len>=2^32")
+	}
 	for _, a := range c12Algos {
 		m = append(m, "prov:hasher-"+a)
 		m = append(m, "verify:"+a+":accept", "verify:"+a+":reject")
@@ -548,6 +555,9 @@ func (p c12) RunBatch(t *core.T, b core.Batch) {
 	}
 	r := t.Rand(b.Name, fmt.Sprint(b.Arg))
 	switch b.Name {
+	case "huge":
+		in := []byte(fmt.Sprint(b.Arg))
+		t.Case("huge", in, func(c *core.C) { p.huge(c, b.Arg) })
 	case "stream":
 		subs := orderedSubsets()
 		subs = append(subs, []string{"sha256", "sha256"}, []string{"md5", "sha1", "md5"}, []string{"sha512", "sha512", "sha512", "sha1"})
@@ -589,6 +599,9 @@ func (p c12) RunBatch(t *core.T, b core.Batch) {
 
 func (p c12) RunCase(t *core.T, kind string, input []byte) {
 	switch kind {
+	case "huge":
+		n, _ := strconv.Atoi(string(input))
+		t.Case(kind, input, func(c *core.C) { p.huge(c, n) })
 	case "stream":
 		var cs c12Stream
 		if json.Unmarshal(input, &cs) == nil {
@@ -600,4 +613,48 @@ func (p c12) RunCase(t *core.T, kind string, input []byte) {
 			t.Case(kind, input, func(c *core.C) { p.verify(c, cs) })
 		}
 	}
+}
+
+// huge (thorough): one stream of more than 2^31 / 2^32 bytes through a hasher, in 8 MiB pieces of a repeating
+// pattern: the reported size must be the number of bytes written (no 32-bit counter anywhere) and the digest that of
+// the same stream computed by crypto/sha1 directly.
+func (p c12) huge(c *core.C, which int) {
+	total := int64(1)<<31 + 4099
+	if which == 1 {
+		total = int64(1)<<32 + 123
+	}
+	piece := make([]byte, 8<<20)
+	for i := range piece {
+		piece[i] = byte(i*7 + i>>9)
+	}
+	w, h, err := hashio.NewHasherWriter("sha1", io.Discard)
+	if err != nil {
+		c.Failf("NewHasherWriter(sha1): %v", err)
+		return
+	}
+	ref := sha1.New()
+	for left := total; left > 0; {
+		n := int64(len(piece))
+		if n > left {
+			n = left
+		}
+		if m, err := w.Write(piece[:n]); err != nil || int64(m) != n {
+			c.Failf("Write of %d bytes after %d bytes: %d, %v", n, total-left, m, err)
+			return
+		}
+		ref.Write(piece[:n])
+		left -= n
+	}
+	if h.Size() != total {
+		c.Failf("a stream of %d bytes through one hasher: Size() = %d", total, h.Size())
+	}
+	fh := control.FileHashFromHasher("huge.bin", *h)
+	if fh.Size != total {
+		c.Failf("a stream of %d bytes through one hasher: the entry records size %d", total, fh.Size)
+	}
+	if want := hex.EncodeToString(ref.Sum(nil)); fh.Hash != want {
+		c.Failf("a stream of %d bytes: entry digest %s, crypto/sha1 says %s", total, fh.Hash, want)
+	}
+	c.Cover(fmt.Sprintf("stream:len>=2^%d", 31+which))
+	c.Nontrivial()
 }
